@@ -14,12 +14,16 @@ NOTE_B = ("Trusted: z3, numpy object-array semantics, vlib.zt term arithmetic (v
 NOTE_A = "Trusted: CrossHair 0.0.110 + z3; bounds on the number of indices / universe sizes are in the evidence file."
 
 CHECKS = {
+    "C01": dict(text=B + " One inductive step of the validity invariant from arbitrary audited pre-states for every public operation; the audit is written from the property statement, not the library's check(). " + A, note=NOTE_B + " " + NOTE_A,
+                tech="z3-term symbolic execution of every public op from enumerated audited pre-states + independent audit; CrossHair lemmas for unbounded charges", ref="§4 C01", engine="B+A"),
     "C02": dict(text=B + " Reference: numpy's own tensordot/einsum/trace on independently densified operands.", note=NOTE_B,
                 tech="z3-term symbolic execution of tensordot/matmul/trace/einsum vs dense reference (SMT-decided polynomial identities)", ref="§4 C02", engine="B"),
     "C05": dict(text=B + " Every input entry is a distinct variable; the oracle locates it through the result's own sub-index table; unfuse must restore every entry; insert and concat must agree. " + A, note=NOTE_B + " " + NOTE_A,
                 tech="z3-term symbolic execution of fuse/unfuse (both strategies, cache on/off) + CrossHair on calc_fuse_group_info/accum_for_split", ref="§4 C05", engine="B+A"),
     "C08": dict(text=B + " Each operation through every call route; an operation may raise (all routes alike) but never return another value.", note=NOTE_B,
                 tech="z3-term symbolic execution of each op vs the op on the densified operand; path controller for abs/min/max/clip", ref="§4 C08", engine="B"),
+    "C16": dict(text=B + " All constructors with every documented combination of omitted arguments must agree; arbitrary dense arrays (all entries distinct variables) under arbitrary labelings must round-trip to their projection.", note=NOTE_B,
+                tech="z3-term symbolic execution of constructors/from_dense/to_dense vs independent placement and projection oracle", ref="§4 C16", engine="B"),
     "C17": dict(text=A + " Group laws for all valid charges (unbounded integers for U1/U1U1); sector enumeration against a brute-force filter.", note=NOTE_A,
                 tech="CrossHair/z3 symbolic execution of Symmetry classes and gen_valid_sectors", ref="§4 C17", engine="A"),
 }
